@@ -1295,7 +1295,7 @@ func main() {
 		sk.impl.Line(il)
 		sk.n++
 	}
-	// 6 (runs last, see below). pool phase
+	// 5. stream encoder over writer oracles
 	rw := r.Fork(5)
 	nenc := 3000 * *scale
 	if thorough {
@@ -1307,5 +1307,65 @@ func main() {
 		sk.cases.Line(cl)
 		sk.impl.Line(il)
 		sk.n++
+	}
+	// 6. pool phase (last: from here on bufPool recycles stream buffers; all of them have capacity 4096 because no
+	// stream of this phase fills more than half of it).  One value per Read with string-heavy values: every value is
+	// the last thing in the buffer when it is decoded and the buffer goes back to the pool right after it; the values
+	// are retained and compared again after the stream, a GC and further pool round trips.
+	option.LimitBufferSize = 1024 * 1024
+	poolPhase = true
+	rp := r.Fork(6)
+	npool := 1200 * *scale
+	if thorough {
+		npool = 15000 * *scale
+	}
+	for i := 0; i < npool; i++ {
+		var vals []string
+		nv := 2 + rp.Intn(4)
+		total := 0
+		for j := 0; j < nv; j++ {
+			v := genStringy(rp)
+			vals = append(vals, v+[]string{"", " ", "\n", "  "}[rp.Intn(4)])
+			total += len(v) + 2
+		}
+		if total > 1500 {
+			continue
+		}
+		s := strings.Join(vals, "")
+		var parts []string
+		switch rp.Intn(4) {
+		case 0:
+			parts = randomCuts(rp, s)
+		default:
+			parts = vals // one value per Read
+		}
+		c := &dcase{pcap: 4096, fin: "E", chunks: hexChunks(parts, nil), sonicCfg: rp.Chance(1, 5)}
+		if rp.Chance(1, 4) {
+			c.fin = strconv.Itoa(1 + rp.Intn(3))
+		}
+		c.ops = strings.Repeat("d", nv+2)
+		emit(c)
+	}
+}
+
+// values made of unescaped strings (decoded without copying unless CopyString is set)
+func genStringy(r *rng.R) string {
+	str := func() string {
+		n := 3 + r.Intn(40)
+		b := make([]byte, n)
+		for i := range b {
+			b[i] = letters[r.Intn(52)]
+		}
+		return `"` + string(b) + `"`
+	}
+	switch r.Intn(4) {
+	case 0:
+		return str()
+	case 1:
+		return "[" + str() + "," + str() + "," + str() + "]"
+	case 2:
+		return "{" + str() + ":" + str() + "," + str() + ":[" + str() + "]}"
+	default:
+		return "{" + str() + ":{" + str() + ":" + str() + "}}"
 	}
 }
